@@ -165,6 +165,9 @@ Fixpoint anf_expr (cfg : config) (e : expr) (n : nat) : option (expr * list pend
       | None => None
       | Some (cs1, H1, n1) =>
           let '(cs2, H2, n2) := ensure_children cfg k cs1 n1 in
+          (* _visit_trivial_only_expression: the baseline k = len(pending) is taken BEFORE generic_visit, so a
+             lazy construct is rejected iff anything was hoisted from inside it at any depth (H1: out of its
+             descendants, H2: its direct operands); theorem lazy_rejected *)
           if triv_only k && negb (match H1 ++ H2 with [] => true | _ => false end) then None
           else Some (EOp k lab cs2, H1 ++ H2, n2)
       end
